@@ -23,7 +23,7 @@ ASSUMPTIONS = [
     "rule patterns are read through the regex-level reference R1 (vf/ref/rulelang.py); the implicit rule texts themselves are taken from annet.implicit._implicit_tree (data)",
     "reference completion adds, with a default block, the defaults nested in it (what idempotence requires)",
 ]
-FLOORS = {"quick": {"completions": 2000, "defaults_added": 2000, "defaults_suppressed": 1000, "patches_checked": 1500, "front_runs": 150, "front_safe_runs": 150, "front_runs_clear_mode": 150, "block_lines_added": 4000, "pairs_with_vrf_change_on_an_interface": 300, "ports_in_a_port_channel_on_both_sides": 500, "touch_patches_checked": 2500, "front_runs_with_defaults_covered_through_the_negated_form_of_a_rule": 150},
+FLOORS = {"quick": {"completions": 2000, "defaults_added": 2000, "defaults_suppressed": 1000, "patches_checked": 1500, "front_runs": 150, "front_safe_runs": 150, "front_runs_clear_mode": 150, "block_lines_added": 4000, "pairs_with_vrf_change_on_an_interface": 300, "ports_in_a_port_channel_on_both_sides": 500, "touch_patches_checked": 2500, "front_runs_with_defaults_covered_through_the_negated_form_of_a_rule": 150, "completed_trees_compared_after_the_diff": 1500},
           "thorough": {"completions": 100000, "defaults_added": 100000, "defaults_suppressed": 50000, "patches_checked": 70000, "front_runs": 7000, "front_safe_runs": 7000, "front_runs_clear_mode": 7000, "block_lines_added": 80000, "pairs_with_vrf_change_on_an_interface": 6000}}
 MODELS = [("Huawei CE6870", ()), ("Huawei NE40E-X8", ()), ("Huawei Quidway S5300", ()), ("Arista DCS-7050", ()),
           ("Cisco Nexus 3132", ()), ("Cisco Nexus 3432", ()), ("Cisco Nexus 9316", ()), ("Cisco Nexus N9K-C9364", ()), ("Cisco Nexus 9504", ("spine1",)),
@@ -257,7 +257,15 @@ def check_case(seed, acc, blk=False):
     w["other"] = u
     try:
         mu = complete(dev, u)
-        diff, patch = _diff_and_patch(dev, unplain(m), unplain(mu), None, None, False)
+        m_tree, mu_tree = unplain(m), unplain(mu)
+        diff, patch = _diff_and_patch(dev, m_tree, mu_tree, None, None, False)
+        # the completed configurations are used again after the diff (shown, diffed against another target): they are what the completion made them
+        acc.count("completed_trees_compared_after_the_diff")
+        if plain(m_tree) != m or plain(mu_tree) != mu:
+            side = "current" if plain(m_tree) != m else "desired"
+            acc.violation("C17/completed-configuration-changed-by-the-diff", "computing the diff and the patch altered the completed configuration handed to it (its defaults are gone or moved)",
+                          dict(w, side=side, before=(m if side == "current" else mu), after=(plain(m_tree) if side == "current" else plain(mu_tree))))
+            return w
         v = registry_connector.get().match(dev.hw)
         cmds = [tuple(p) for p in v.make_formatter().cmd_paths(patch)]
     except Exception as e:
